@@ -13,6 +13,7 @@ QUICK_RUNS = 60000
 THOROUGH_RUNS = 1500000
 QUICK_WALL = 110
 THOROUGH_WALL = 1500
+CORPUS_VARIANTS = True      # past findings are replayed under every key kind and action relabelling
 CHUNK = 25
 RULE = ("one run = one generated proper table MDP (discounted or not, initial mass possibly on absorbing states) x admissible heuristic "
         "(monotone: constant bound / exact / exact+constant; merely admissible: per-state noisy slack; arbitrary values at absorbing "
@@ -203,7 +204,12 @@ def _execute(lr, view, cfg, ctx, sched):
                     st['main'] = False
                     sview = MDPView(sib)
                     W0, ctx.W = ctx.W, game_W(sview)
-                    planner.plan_on(make_mdp(sview, ctx, alias=cfg.get('alias', 'fresh')))
+                    _first = planner.plan_on(make_mdp(sview, ctx, alias=cfg.get('alias', 'fresh')))
+                    for _s in range(view.N):          # the first result is used before the object is used again
+                        try:
+                            _first.policy.action_dist(sk[_s])
+                        except Exception:
+                            pass
                     ctx.W = W0
                     st['main'] = True
                 st['log0'] = len(the_sched.log)
